@@ -344,6 +344,15 @@ def _unpack_order(ck, m, sep):
     p = ck.ctx.p
     # idiom 1: tuple assignment  a, b = map(..., pair.split(sep)) / pair.split(sep)
     fns = [m] + list(m.children)
+    # ... and the helpers of the same module the parser hands the pair to (one or two calls deep)
+    for _ in range(2):
+        for f in list(fns):
+            for site in ck.ctx.cg.sites.get(f.qualname, []):
+                for c in site.repo_callees():
+                    g = getattr(c, "fn", None)
+                    if g is not None and g.module is m.module and g not in fns and c.kind == "fn":
+                        fns.append(g)
+                        fns.extend(k for k in g.children if k not in fns)
     for f in fns:
         for n in ast.walk(f.node):
             if isinstance(n, ast.Assign) and isinstance(n.targets[0], ast.Tuple) and len(n.targets[0].elts) == 2 \
@@ -358,6 +367,22 @@ def _unpack_order(ck, m, sep):
         for site in ck.ctx.cg.sites.get(f.qualname, []):
             if any(isinstance(a, ast.Starred) and "split" in ast.unparse(a) for a in site.node.args):
                 cs = site.repo_callees()
+                if cs:
+                    params = cs[0].params(p) or []
+                    out = []
+                    for prm in params[:2]:
+                        roles = R.roles_of_tokens(R.tokens(prm.name)).get("query/reference")
+                        out.append({0: "query", 1: "reference"}.get(roles))
+                    return out
+    # idiom 3: itertools.starmap(Callee, (pair.split(sep) for pair in ...)) -> parameter order of the callee
+    for f in fns:
+        for n in ast.walk(f.node):
+            if isinstance(n, ast.Call) and ast.unparse(n.func).endswith("starmap") and len(n.args) == 2 \
+                    and "split" in ast.unparse(n.args[1]):
+                probe = ast.Call(func=n.args[0], args=[], keywords=[])
+                ast.copy_location(probe, n)
+                ast.fix_missing_locations(probe)
+                cs = [c for c in ck.ctx.cg.resolve_call(f, probe) if c.kind == "fn"]
                 if cs:
                     params = cs[0].params(p) or []
                     out = []
